@@ -41,8 +41,14 @@ Definition rhe (n d : Z) : Z :=
   | Eq => if Z.even q then q else q + 1
   end.
 
-(* Python round(x, 6) for finite x with |x| * 10^6 < 2^53; NaN outside that range *)
+(* Python round(x, 6): CPython rounds the exact decimal expansion of x to 6 places (half to even) and returns the
+   double nearest to that decimal. For |x| < 2^33 that is (round-half-even of x * 10^6, an integer below 2^53)
+   divided by 10^6 in binary64 (both operands exact, so the division is the correctly rounded quotient). For
+   |x| >= 2^33 (infinities included) neighbouring doubles are at least 2^-19 > 10^-6 apart, the rounded decimal lies
+   within 5e-7 of x, strictly inside x's rounding interval, and the result is x itself. NaN stays NaN. *)
+Definition f_2p33 : float := 0x1p+33%float.
 Definition round6 (x : float) : float :=
+  if PrimFloat.leb f_2p33 (PrimFloat.abs x) then x else
   let (m, e) := fdecomp x in
   let n := m * 1000000 in
   let k := if 0 <=? e then n * 2 ^ e else rhe n (2 ^ (- e)) in
